@@ -28,7 +28,9 @@ LEAN_TARGETS = ["Verif.Props.C18", "Verif.Props.C18Filter", "Verif.Props.C18Recv
 LEVEL = "proof"
 ASSUMPTIONS = [
     "the running time of CPython's re engine on an input is at most a constant times the size of the backtracking search tree (Re.work)",
-    "the hand-written scanners (filter parser loops, receive's re-parse of the residue) are covered by timing families only, not by a theorem",
+    "the hand-written recursive parsers have counting models (filter text parser, receive's parse loop, BER filter decoder) with proved linear call "
+    "bounds, tied by comparing call counts under a profiler hook; the work inside one call and the schema post-processing are covered by "
+    "deterministic step counts (executed source lines against 100(n+1)^2+5000) and timing families only",
     "wall-clock constants are outside the model; timing thresholds are generous (a family is exponential only if it multiplies per added unit)",
 ]
 
@@ -64,7 +66,9 @@ def count_steps(fn, budget):
             return None
         if event == "call":
             calls[co.co_name] += 1
-            calls[getattr(co, "co_qualname", co.co_name)] += 1
+            qn = getattr(co, "co_qualname", co.co_name)
+            if qn != co.co_name:
+                calls[qn] += 1
             return tracer
         if event == "line":
             steps += 1
@@ -585,6 +589,24 @@ def timing_families(ctx):
     fam.append(("filter value \\41*n", lambda n: fs("(a=" + "\\41" * n + ")"), small + big))
     fam.append(("filter a=*b*b… n stars", lambda n: fs("(a=" + "*b" * n + ")"), small + big))
     fam.append(("filter no '=' run", lambda n: fs("(&" + "(a)" * n), small + big))
+
+    def hightag(n_octets, where):
+        """an otherwise valid message carrying an unrecognised element whose tag NUMBER needs n identifier octets (each octet adds 7 bits:
+        anything that does arithmetic proportional to the number, not to its length, multiplies by 128 per added byte)"""
+        def tlv(tag, content):
+            return tag + ber.enc_len(len(content)) + content
+        big = bytes([0x9F]) + bytes([0xFF] * (n_octets - 1)) + bytes([0x7F])
+        bind = tlv(b"\x60", tlv(b"\x02", b"\x03") + tlv(b"\x04", b"") + tlv(b"\x80", b"") + (tlv(big, b"x") if where == "op" else b""))
+        msg = tlv(b"\x30", tlv(b"\x02", b"\x01") + bind + (tlv(big, b"x") * 3 if where == "envelope" else b""))
+        s_ = sansldap.LDAPServer()
+        try:
+            s_.receive(msg)
+        except sansldap.LDAPError:
+            pass
+
+    few = (1, 2, 3, 4, 5, 6, 7, 8)
+    fam.append(("receive: trailing envelope element with an n-octet tag number", lambda n: hightag(n, "envelope"), few))
+    fam.append(("receive: trailing protocolOp element with an n-octet tag number", lambda n: hightag(n, "op"), few))
 
     def recv_bytewise(n):
         s = sansldap.LDAPServer()
